@@ -95,6 +95,10 @@ def s_unit_and_monitor(ctx):
         name = names_all[it % len(names_all)]
         spec = dunit.general_spec(rng, name, max_calls=1, metrics=0, sizes=(2, 3, 5, 8), max_points=100, n_max=10, verbosity=False,
                                   steps_api=True, warm=rng.randint(1, 6), constraint=rng.random() < 0.4, ndims=rng.choice([1, 2, 3]))
+        if rng.random() < 0.4:
+            # grid counts that are not perfect powers of the dimension count, together with warm starts (the warm-start
+            # positions come last in init_positions_l: a section that returns more than it was asked for pushes them out)
+            spec["init"]["grid"] = rng.choice([3, 4, 5, 7, 8, 9, 13, 16])
         if rng.random() < 0.3 and len(spec["init"]["warm_start"]) > 1:
             spec["init"]["warm_start"].append(dict(spec["init"]["warm_start"][0]))     # a duplicate
         cfg = dict(spec["cfg"] or {})
@@ -123,6 +127,10 @@ def s_unit_and_monitor(ctx):
         lits.append("(list_eqb (option_eqb (list_eqb Z.eqb)) (map (pop_init_pos (split %s %s) %s) (seq 0 %s)) %s)"
                     % (clist(l, clist), cnat(P), cnat(P), cnat(n_inits), clist(got, lambda p: "(Some %s)" % clist(p))))
         cases.append(dict(optimizer=name, spec=dunit.spec_brief(spec), init_positions=l, population=P, evaluated=got))
+        # the model's o_n_inits is the length of the initial-position list: the implementation's counter must agree
+        lits.append("(Z.eqb (zlen %s) %s)" % (clist(l, clist), n_inits))
+        cases.append(dict(optimizer=name, spec=dunit.spec_brief(spec), init_positions=l, n_inits=n_inits,
+                          note="n_inits differs from the number of initial positions"))
         us.count(key, nontrivial=(P > 1 and len(l) % P != 0))
         us.bump(name)
         # monitor
